@@ -122,6 +122,14 @@ def run(ck, rng):
     exe = build_godriver()
     n = 900 if ck.tier == "quick" else 25000
     scs = scenarios(rng, n)
+    # many FAILING calls in a row in one process (every root already exists / a file is in the way), then valid ones:
+    # whatever a failed call holds (slots, locks, pooled objects) must have been given back
+    doc2 = b"- r0\n  - a\n- r1\n  - b\n"
+    for j in range(45):
+        pre_ = [(b"tgt", "d"), (b"tgt/r0", rng.choice("df")), (b"tgt/r1", "d")]
+        scs.append(("mscn mkdir %d - - - - 0 0 %s - %s 0 %s" % (rng.choice([1, 4]), snap_arg(pre_), hx(b"tgt"), hx(doc2)), "mkdir", "-", "-", 1, 2, len(doc2), "other"))
+    for j in range(6):
+        scs.append(("mscn mkdir 4 - - - - 0 0 %s - %s 0 %s" % (snap_arg([(b"tgt", "d")]), hx(b"tgt"), hx(doc2)), "mkdir", "-", "-", 0, 2, len(doc2), "clean"))
     cases = [s[0] for s in scs]
     impl, crashes = run_impl(exe, cases, per_case_timeout=40.0, max_abnormal=6)
     def max_ms(rs):
